@@ -1719,3 +1719,115 @@ def run_snprintffit(prog, ctx=None):
                        "" if ok else "`%s` compares the result of %s(.., %s, ..) with its size using %s: a result equal to the size is a truncated text, it fits only below the size" % (
                            norm(show(n, f)), callee_name(call), ntext, op))
     return res
+
+
+def run_fragstate(prog, ctx=None):
+    """FRAGSTATE: a scanner that walks several fragments carries what it learnt from the bytes (previous byte, open quote) across
+    the fragment boundary: in a loop that reloads its byte pointer W from an iovec element (W = X[i].iov_base), a variable that
+    is otherwise set from *W inside the loop is not reset where W is reloaded"""
+    res = Result("FRAGSTATE")
+    files = set(ctx.get("files", [])) if ctx else None
+    for f in funcs_of(prog, files):
+        loops = natural_loops(f)
+        if not loops:
+            continue
+        # pointers reloaded from iov_base, per block
+        reload_blocks = {}
+        for b, i, n in f.walk_all():
+            if n.get("k") == "bin" and n.get("op") == "=":
+                l = strip(n["a"], lvalue_to_rvalue=False)
+                r = strip(n["b"], all_casts=True)
+                if l.get("k") == "ref" and "id" in l["d"] and r.get("k") == "mem" and r.get("f") == "iov_base":
+                    reload_blocks.setdefault(l["d"]["id"], set()).add(b.id)
+        if not reload_blocks:
+            continue
+        for w, rblocks in reload_blocks.items():
+            inloop = [h for h, body in loops.items() if rblocks & body]
+            if not inloop:
+                continue
+            body = set()
+            for h in inloop:
+                body |= loops[h]
+            # variables set from *W (or *(W++)) inside the loop
+            carried = {}
+            for bid in body:
+                for el in f.blocks[bid].el:
+                    for n in walk_own(el):
+                        if n.get("k") == "bin" and n.get("op") == "=":
+                            l = strip(n["a"], lvalue_to_rvalue=False)
+                            r = strip(n["b"], all_casts=True)
+                            if l.get("k") == "ref" and "id" in l["d"] and r.get("k") == "un" and r.get("op") == "*":
+                                p = strip(r["e"], all_casts=True)
+                                if p.get("k") == "un" and p.get("op") in ("++", "--"):
+                                    p = strip(p["e"], lvalue_to_rvalue=False)
+                                if p.get("k") == "ref" and p["d"].get("id") == w:
+                                    carried[l["d"]["id"]] = l["d"]["n"]
+            if not carried:
+                continue
+            bad = None
+            for bid in rblocks & body:
+                for el in f.blocks[bid].el:
+                    for n in walk_own(el):
+                        if n.get("k") == "bin" and n.get("op") == "=":
+                            l = strip(n["a"], lvalue_to_rvalue=False)
+                            if l.get("k") == "ref" and l["d"].get("id") in carried and cval(n["b"]) is not None:
+                                bad = (carried[l["d"]["id"]], n)
+            res.ob("%s:state of the scan survives the fragment switch" % f.qn, bad is None, f, (bad[1].get("l") if bad else f.line) or f.line,
+                   "" if bad is None else "`%s` is reset (`%s`) where the byte pointer is reloaded from the next fragment: what the previous fragment's last byte said is forgotten at every boundary" % (bad[0], norm(show(bad[1], f))))
+    return res
+
+
+def run_queryrest(prog, ctx=None):
+    """QUERYREST: mpt_node_query(n, &P) returns the deepest node that matches a prefix of the path and leaves the unmatched rest
+    in P.len; every one of its callers looks at P.len before it follows the result (all 6 do): a caller that dereferences the
+    result on a path without a read of P.len treats the nearest existing ancestor as the node that was asked for"""
+    res = Result("QUERYREST")
+    files = set(ctx.get("files", [])) if ctx else None
+    n = 0
+    for f in funcs_of(prog, files):
+        for b, i, e in f.elements():
+            if not (e.get("k") == "call" and callee_name(e) == "mpt_node_query" and len(e.get("args", [])) >= 2):
+                continue
+            a1 = strip(e["args"][1], all_casts=True)
+            pvar = None
+            arrow = False
+            if a1.get("k") == "un" and a1.get("op") == "&":
+                x = strip(a1["e"], lvalue_to_rvalue=False)
+                if x.get("k") == "ref" and "id" in x["d"]:
+                    pvar = x["d"]["id"]
+            elif a1.get("k") == "ref" and "id" in a1["d"]:
+                pvar = a1["d"]["id"]
+                arrow = True
+            if pvar is None:
+                continue
+            # the variable that receives the result (assignment around the call, in this block)
+            rvar = None
+            for el in b.el:
+                for x in walk_own(el):
+                    if x.get("k") == "bin" and x.get("op") == "=" and strip(x["b"], all_casts=True).get("sid") == e.get("sid") and e.get("sid") is not None:
+                        l = strip(x["a"], lvalue_to_rvalue=False)
+                        if l.get("k") == "ref" and "id" in l["d"]:
+                            rvar = l["d"]
+            if rvar is None:
+                continue
+            readers = set()
+            derefs = []
+            for b2, i2, x in f.walk_all():
+                if x.get("k") == "mem" and x.get("f") == "len" and bool(x.get("arrow")) == arrow:
+                    y = strip(x["b"], all_casts=True) if arrow else strip(x["b"], lvalue_to_rvalue=False)
+                    if y.get("k") == "ref" and y["d"].get("id") == pvar:
+                        readers.add(b2.id)
+                if x.get("k") == "mem" and x.get("arrow"):
+                    y = strip(x["b"], all_casts=True)
+                    if y.get("k") == "ref" and y["d"].get("id") == rvar["id"]:
+                        derefs.append((b2, x))
+            reach = set()
+            for sx in b.succ:
+                if sx is not None:
+                    reach |= f.reachable_from(sx, avoid=readers)
+            bad = [x for b2, x in derefs if b2.id in reach and b2.id not in readers]
+            n += 1
+            res.ob("%s:%s = mpt_node_query(.., %s)" % (f.qn, rvar["n"], norm(show(e["args"][1], f))), not bad, f, e.get("l", f.line),
+                   "" if not bad else "`%s` follows the result on a path that never looked at the unmatched rest of the path (%s.len): a partial match is taken for the node itself" % (
+                       norm(show(bad[0], f)), norm(show(e["args"][1], f)).lstrip("&")))
+    return res
